@@ -39,7 +39,7 @@ def _shapes(tier):
     sh = {
         "2sc": ([F([S(2), S(2)])], Z),
         "bg+rule": ([F([S(1), R([S(1)], bg=1)], bg=1)], Z),
-        "outline": ([F([O(1, [(2, [])]), S(1)])], Z),
+        "outline": ([F([O(1, [(2, []), (0, [])]), S(1)])], Z),      # second Examples table is header-only
         "2feat": ([F([S(2)]), F([S(1)])], Z),
         "wip": ([F([S(2, tags=["wip"]), S(1)])], Z),
     }
